@@ -78,6 +78,7 @@ def gen_grammars(prop, tier, n, profile):
             if rnd.random() < 0.3:
                 h = gg.add_bag_list(g, rnd)
                 if h is not None and gg.classify(ref_lr1.build(h)) in ('lr1', 'sr'): g = h
+            if rnd.random() < 0.12: g = gg.long_names(g, rnd)
             add(g)
     elif profile == 'values':     # C14: decorated + error rules + move-only instantiations
         for g in gg.err_core(): add(gg.decorate(g, rnd, strings=0))
@@ -183,7 +184,9 @@ def gen_grammars(prop, tier, n, profile):
             if rnd.random() < 0.25: g = gg.add_error_rules(g, rnd)
             if rnd.random() < 0.4: g = gg.decorate(g, rnd, strings=0, typed=0)
             if gg.classify(ref_lr1.build(g)) in ('rr', 'acc'): continue
-            add(gg.to_custom_lexer(g, rnd))
+            g = gg.to_custom_lexer(g, rnd)
+            if rnd.random() < 0.25: g = gg.long_names(g, rnd)
+            add(g)
     elif profile == 'verbose':    # C16
         for g in core: add(g)
         for g in gg.err_core(): add(g)
@@ -304,7 +307,7 @@ def c01(tier):
 def c02(tier):
     ck = Check('C02', tier)
     q = tier == 'quick'
-    cfg = {'modes': [0], 'exh_cap': 200 if q else 500, 'exh_len': 5, 'n_rand': 60, 'n_mut': 40, 'long': (30, 200) if q else (100, 1000, 5000)}
+    cfg = {'modes': [0, 3, 4], 'exh_cap': 200 if q else 500, 'exh_len': 5, 'n_rand': 60, 'n_mut': 40, 'long': (30, 200) if q else (100, 1000, 5000)}
     merge(ck, run_pipeline('C02', tier, gen_grammars('C02', tier, 256 if q else 3000, 'decorated'), cfg))
     merge(ck, common.pmap(pipeline.worker, deep_specs('C02', tier)))
     ck.cov['rule'] = ('grammars as C01, decorated with mixed value types (two tracked types, long), rules without functor, typed terms, string terms; '
@@ -830,7 +833,7 @@ def replay(prop, path):
         if isinstance(case, dict) and case.get('grammar') and prop in pipeline.JUDGES:
             from .grammar import Grammar
             g = Grammar.from_json(case['grammar'])
-            modes = {'C01': [0], 'C02': [0], 'C05': [0], 'C08': [0, 1], 'C09': [0, 4, 8, 9], 'C10': [0, 7, 8, 9], 'C11': [1], 'C13': [0, 20, 21, 22, 23, 24, 25, 26, 27, 28, 29, 30], 'C14': [0], 'C16': [0, 1, 2, 5, 6], 'C18': [0, 1, 3, 4, 7, 8, 9]}[prop]
+            modes = {'C01': [0], 'C02': [0, 3, 4], 'C05': [0], 'C08': [0, 1], 'C09': [0, 4, 8, 9], 'C10': [0, 7, 8, 9], 'C11': [1], 'C13': [0, 20, 21, 22, 23, 24, 25, 26, 27, 28, 29, 30], 'C14': [0], 'C16': [0, 1, 2, 5, 6], 'C18': [0, 1, 3, 4, 7, 8, 9]}[prop]
             inputs = [case['input']] if case.get('input') is not None else ['']
             spec = {'prop': prop, 'grammars': [g.to_json()], 'seed': 1, 'flavour': 'clang', 'cfg': {'modes': modes, 'timeout': 300}, 'explicit_inputs': [inputs]}
             outs = [pipeline.worker(spec)]
